@@ -160,6 +160,8 @@ macro_rules! pinned {
     ($t:ty, $($it:expr),+) => {
         assert!(digests::<$t>().0 == recipe_digest(&[$($it),+]),
             "[C06/typehash.pinned] the type hash is the published function of the type's structure (format 1.1 names)");
+        assert!(digests::<$t>().0 == recipe_digest(&[$($it),+]),
+            "[C04/typehash.recipe] the type hash feeds the whole published recipe (names, lengths as pointer-width words, parameters): what keeps distinct types apart");
     };
 }
 
